@@ -350,7 +350,7 @@ class C06(Spec):
     generators = ('Life',)
     harness_flags = ('-Wl,--wrap=free',)
     harness_timeout = 300
-    technique = ('Lean 4 proof by induction over histories with a nested induction over destructor cascades: model of '
+    technique = ('Lean 4 proof by induction over histories with a nested induction over destructor cascades (source-derived switches regenerated each run): model of '
                  'GC_Set/GC_Rem/GC_Rem_Ptr/GC_Sweep/GC_Del/del_by/Box_Del with ledger; differential check of the model against '
                  'the real collector (destructor ledger, pending list, registry) on generated histories')
     level_text = ('Theorems C06_exactly_once / C06_no_double / C06_collect_respects_marks: for every history of new/new_root/new_raw, '
@@ -370,7 +370,8 @@ class C06(Spec):
             'registry sizes; (b) Box->...->probe chains of depth 2..6 for every way of reclaiming them (forced collection, real mark, explicit del, '
             'teardown) under random address permutations (both pending orders). non-trivial history = at least one destructor-issued del met '
             'the pending list, the registry, or an already finalised object during a sweep; distinct = distinct history text.')
-    trusted_base = ('harness/h_life.c + lean/Driver/Life.lean (correspondence is testing): ledger hooks in probe destructors / arena dealloc / --wrap=free',
+    trusted_base = ('translate/g_life.py (regex over GC_Rem_Ptr, GC_Sweep, GC_Set, GC_Rem, GC_Del, Cello_Exit, alloc_by, del_by, Box_Del, Thread_Init_Run)',
+                    'harness/h_life.c + lean/Driver/Life.lean (correspondence is testing): ledger hooks in probe destructors / arena dealloc / --wrap=free',
                     'the registry layout (robin-hood table) is abstracted to a duplicate-free list; slot order is a quantified parameter (C17 covers the layout)',
                     'the mark phase is a quantified parameter: any marked set (C01 covers marking)',
                     'object identities are never reused within a history in the model (a C address is reused only after free)')
